@@ -292,7 +292,9 @@ def _read_json(ctx, raw, snaps, path, sig):
             if not ok:
                 _fail(ctx, "file_content", "%s: control_points.weights differ: %s" % (path, why), reader="independent", **sig)
         dl = rec.get("delta")
-        ok, why = close([dl] if nd == 1 else list(dl), s["delta"], 1e-12, 1.0)
+        # a single number stands for the same delta in every direction (the importers accept both forms)
+        dl_list = [dl] * nd if isinstance(dl, (int, float)) else (list(dl) if isinstance(dl, (list, tuple)) else None)
+        ok, why = close(dl_list, s["delta"], 1e-12, 1.0) if dl_list is not None and len(dl_list) == nd else (False, "not a number or a list of %d numbers" % nd)
         if not ok:
             _fail(ctx, "file_content", "%s: delta %r, exported %r" % (path, dl, s["delta"]), reader="independent", **sig)
         if s["trims"]:
